@@ -2,7 +2,7 @@
 """Regenerates the seeded-change table of DESIGN.md section 8 from seeded/*/meta.json."""
 import json, glob, os, re
 rows=[]
-for d in sorted(glob.glob('/verif/seeded/*')):
+for d in sorted(glob.glob('/verif/seeded/C*')):
     m=json.load(open(d+'/meta.json'))
     rows.append((os.path.basename(d), m['breaks_property'], m['needs_to_manifest'].replace('|','\\|'), m['detected_by'].replace('|','\\|')))
 t='| seed | property | needs, to manifest | detected by |\n|---|---|---|---|\n'+''.join('| %s | %s | %s | %s |\n'%r for r in rows)
